@@ -13,18 +13,18 @@ import (
 type Kind int
 
 const (
-	KScalar Kind = iota // one SMT term
-	KSlice              // arr, off, len, cap
-	KStruct             // struct value: Fs
-	KTuple              // multiple results: Fs
-	KLoc                // generator-side pointer to a field / element / local
-	KSeq                // spec sequence (len, at)
-	KSet                // spec set (membership closure)
-	KUnit               // struct{} and other zero-size values
-	KArrPtr             // pointer to a heap array ([n]T): Arr, N
-	KArray              // array value [n]T: S is an (Array Int elem) term
-	KMapView            // spec map (dom, val closures)
-	KLambda             // spec lambda
+	KScalar  Kind = iota // one SMT term
+	KSlice               // arr, off, len, cap
+	KStruct              // struct value: Fs
+	KTuple               // multiple results: Fs
+	KLoc                 // generator-side pointer to a field / element / local
+	KSeq                 // spec sequence (len, at)
+	KSet                 // spec set (membership closure)
+	KUnit                // struct{} and other zero-size values
+	KArrPtr              // pointer to a heap array ([n]T): Arr, N
+	KArray               // array value [n]T: S is an (Array Int elem) term
+	KMapView             // spec map (dom, val closures)
+	KLambda              // spec lambda
 )
 
 type Val struct {
@@ -33,16 +33,19 @@ type Val struct {
 	S   string     // scalar term
 	Arr string     // slice / arrptr
 	Off string
-	Len string
-	Cap string
-	Fs  []Val
-	Loc *Loc
-	Seq *SeqV
-	Set *SetV
-	Map *MapV
-	Lam *LamV
-	N   int64 // array length
-	Srt string // sort of S for spec-only scalars when T == nil
+	// optional decomposition Off == OffBase + OffDelta kept by slicing expressions, so that element reads of s[lo:][j]
+	// are written idx(OffBase, OffDelta + j): the same shape contracts about the underlying slice use as trigger
+	OffBase, OffDelta string
+	Len               string
+	Cap               string
+	Fs                []Val
+	Loc               *Loc
+	Seq               *SeqV
+	Set               *SetV
+	Map               *MapV
+	Lam               *LamV
+	N                 int64  // array length
+	Srt               string // sort of S for spec-only scalars when T == nil
 }
 
 type LocKind int
@@ -88,8 +91,8 @@ type LamV struct {
 }
 
 func scalar(t types.Type, s string) Val { return Val{K: KScalar, T: t, S: s} }
-func boolVal(s string) Val               { return Val{K: KScalar, T: types.Typ[types.Bool], S: s} }
-func intVal(s string) Val                { return Val{K: KScalar, T: types.Typ[types.Int], S: s} }
+func boolVal(s string) Val              { return Val{K: KScalar, T: types.Typ[types.Bool], S: s} }
+func intVal(s string) Val               { return Val{K: KScalar, T: types.Typ[types.Int], S: s} }
 
 // ---------- type substitution ----------
 
@@ -429,6 +432,7 @@ func rebuild(v Val, terms []string) (Val, []string) {
 	case KSlice:
 		w := v
 		w.Arr, w.Off, w.Len, w.Cap = terms[0], terms[1], terms[2], terms[3]
+		w.OffBase, w.OffDelta = "", ""
 		return w, terms[4:]
 	case KArrPtr:
 		w := v
